@@ -28,6 +28,8 @@ def plan(tier, seed):
   q = tier == 'quick'
   specs = [{'shard': 'rsa-%d' % i, 'n': 8 if q else 100, 'weight': 2}
            for i in range(6)]
+  specs += [{'shard': 'rsalonely-%d' % i, 'part': i, 'parts': 4, 'weight': 6}
+            for i in range(4)]
   specs += [{'shard': 'ec-%d' % i, 'n': 8 if q else 100, 'weight': 5}
             for i in range(5)]
   specs += [{'shard': 'ecdsa-%d' % i, 'n': 4 if q else 40, 'weight': 6}
@@ -155,15 +157,15 @@ def preannotate(rng, art, fam):
   return True
 
 
-def _history(ctx, fam, arts, rng, hid):
+def _history(ctx, fam, arts, rng, hid, fixed_steps=None):
   from paranoid_crypto.lib import paranoid
   entry = {'rsa': paranoid.CheckAllRSA, 'ec': paranoid.CheckAllEC,
            'ecdsa': paranoid.CheckAllECDSASigs}[fam]
   getall = {'rsa': paranoid.GetRSAAllChecks, 'ec': paranoid.GetECAllChecks,
             'ecdsa': paranoid.GetECDSAAllChecks}[fam]
   checks = dict(getall())
-  pre = any([preannotate(rng, a, fam) for a in arts]) if rng.chance(1, 2) \
-      else False
+  pre = any([preannotate(rng, a, fam) for a in arts]) if (
+      fixed_steps is None and rng.chance(1, 2)) else False
   steps = []
   for _ in range(rng.randint(2, 8 if ctx.tier == 'quick' else 12)):
     k = rng.below(6)
@@ -175,6 +177,9 @@ def _history(ctx, fam, arts, rng, hid):
       steps.append(('single', rng.choice(sorted(checks))))
   if not any(s[0] == 'entry' for s in steps):
     steps.insert(rng.below(len(steps) + 1), ('entry', None))
+  if fixed_steps is not None:
+    steps = [('entry', None) if s == 'ENTRY' else ('single', s)
+             for s in fixed_steps if s == 'ENTRY' or s in checks]
   fresh = not pre
   log = observe.CallLog()
   for si, (kind, name) in enumerate(steps):
@@ -248,6 +253,33 @@ def run_rsa(ctx, spec):
     keys = workloads.rsa_keys(arts)
     _history(ctx, 'rsa', keys, rng, h)
     ctx.sample({'family': 'rsa', 'kinds': [a['kind'] for a in arts][:8]})
+
+
+def run_rsalonely(ctx, spec):
+  """One weak artifact of a single family next to healthy keys: nothing else
+  in the batch can lend the check (or the entry point) its return value.  The
+  families include those a check flags *without* evidence (both-smooth Pollard
+  keys, low-weight keys), which take a branch of their own."""
+  rng = ctx.rng('rsalonely')
+  kinds = ['smooth-both', 'smooth', 'bothpattern', 'lhw', 'word', 'swap',
+           'fermat', 'hilo', 'upperdiff', 'unseeded', 'keypair', 'roca',
+           'exponent']
+  for h, kind in enumerate(kinds):
+    if h % spec['parts'] != spec['part'] or not ctx.want('k-' + kind):
+      continue
+    arts = [workloads.rsa_artifact(rng, 'healthy2048'),
+            workloads.rsa_artifact(rng, kind),
+            workloads.rsa_artifact(rng, 'healthy2048')][:rng.choice([2, 3])]
+    from paranoid_crypto.lib import paranoid
+    names = list(dict(paranoid.GetRSAAllChecks()))
+    ctx.count('lonely_weak_batches')
+    # every check by itself on fresh protos, then the entry point; and the
+    # entry point alone on another fresh copy
+    _history(ctx, 'rsa', workloads.rsa_keys(arts), rng, 1000 + h,
+             fixed_steps=names + ['ENTRY'])
+    _history(ctx, 'rsa', workloads.rsa_keys(arts), rng, 2000 + h,
+             fixed_steps=['ENTRY'])
+    ctx.sample({'family': 'rsa-lonely', 'kinds': [a['kind'] for a in arts]})
 
 
 def run_ec(ctx, spec):
@@ -351,7 +383,9 @@ def _issuer_verdicts(ctx, sg, descs):
 
 def run(ctx, spec):
   s = spec['shard']
-  if s.startswith('rsa'):
+  if s.startswith('rsalonely'):
+    run_rsalonely(ctx, spec)
+  elif s.startswith('rsa'):
     run_rsa(ctx, spec)
   elif s.startswith('ecdsa'):
     run_ecdsa(ctx, spec)
@@ -364,5 +398,5 @@ def finalize(agg, tier):
   need = ['histories', 'preannotated_histories', 'entry_point_calls',
           'issuer_verdicts_compared', 'issuer_verdicts_weak',
           'single_check_calls_with_new_positive',
-          'later_call_with_close_issuer']
+          'later_call_with_close_issuer', 'lonely_weak_batches']
   return [], ['reach counter %s is zero' % k for k in need if not c.get(k)]
